@@ -40,6 +40,8 @@ pub struct NodeCfg {
     pub mac: [u8; 6],
     /// 802.15.4 extended address
     pub ll8: [u8; 8],
+    /// 802.15.4 short address used as the hardware address instead of ll8
+    pub ll2: Option<[u8; 2]>,
     pub pan: Option<u16>,
     pub addrs: Vec<(IpAddr, u8)>,
     pub seed: u64,
@@ -67,6 +69,7 @@ impl NodeCfg {
             mtu,
             mac: [2, 0, 0, 0, 0, idx],
             ll8: [2, 0, 0, 0, 0, 0, 0, idx],
+            ll2: None,
             pan: Some(0xbeef),
             addrs,
             seed: idx as u64,
@@ -124,7 +127,10 @@ pub fn build_node(c: &NodeCfg) -> Node {
     let hw = match c.medium {
         Medium::Ip => HardwareAddress::Ip,
         Medium::Ethernet => HardwareAddress::Ethernet(EthernetAddress(c.mac)),
-        Medium::Ieee802154 => HardwareAddress::Ieee802154(Ieee802154Address::Extended(c.ll8)),
+        Medium::Ieee802154 => match c.ll2 {
+            Some(s) => HardwareAddress::Ieee802154(Ieee802154Address::Short(s)),
+            None => HardwareAddress::Ieee802154(Ieee802154Address::Extended(c.ll8)),
+        },
     };
     let mut cfg = Config::new(hw);
     cfg.random_seed = c.seed;
